@@ -110,6 +110,20 @@ func JudgeOpts(rn *logq.Runner, db *logq.DB, ch *chsql.DB, req *logq.Request, sq
 	exp, err := logq.EvalMetric(db, m, evalFrom, evalTo)
 	var probe *logq.ErrProbe
 	if errors.As(err, &probe) {
+		if m.Agg == "count" && m.AggGrp == nil && m.AggCmp == nil && m.TopK == 0 {
+			// not judged against the definition (is the ungrouped aggregate one series or one per stream?), but under
+			// either reading a count is a whole number of series, at least 1
+			out := rn.Run(ch, req, 20*time.Second)
+			if out.TimedOut || out.Err != nil {
+				return Verdict{Detail: "probe: " + probe.Why}
+			}
+			for _, e := range out.Entries {
+				if e.Value < 1 || e.Value != math.Trunc(e.Value) {
+					return Verdict{Out: out, Decided: true, Kind: "out-ungrouped-count-not-a-count", Detail: fmt.Sprintf("count() without grouping: output value %v at %d for series %s is not a whole number of series (every reading of the ungrouped aggregate counts series)", e.Value, e.TimestampNS, logq.CanonLabels(e.Labels))}
+				}
+			}
+			return Verdict{Out: out, Detail: "probe: " + probe.Why + " (count checked to be a whole number >= 1)"}
+		}
 		return Verdict{Detail: "probe: " + probe.Why}
 	}
 	if err != nil {
